@@ -81,7 +81,13 @@ def _gen_mutants(bed_name: str, quick: bool, bed) -> list[tuple]:
     elif bed_name == 'sdp':
         seeds(W.sdp_seeds())
         out.extend(W.sdp_nesting_mutants(quick))
+        out.extend(W.sdp_mixed_mutants(server=True))
         out.extend(W.short_strings('dyn', full2))
+    elif bed_name == 'sdp_client':
+        seeds(W.sdp_seeds())
+        out.extend(W.sdp_nesting_response_mutants())
+        out.extend(W.sdp_mixed_mutants(server=False))
+        out.extend(W.short_strings('dyn', False))
     elif bed_name == 'rfcomm':
         seeds(W.rfcomm_seeds(bed.dlci, bed.new_dlci), fix=W.rfcomm_fix_fcs)
         out.extend(W.short_strings('dyn', full2))
@@ -96,6 +102,22 @@ def _gen_mutants(bed_name: str, quick: bool, bed) -> list[tuple]:
     elif bed_name == 'avctp':
         seeds(W.avctp_seeds())
         out.extend(W.short_strings('dyn', full2))
+    elif bed_name in ('hci_le_stream', 'hci_cl_stream'):
+        # only what a byte-stream transport delivers as whole packets (independent framing check): anything else
+        # legitimately puts the stream out of step.  Each packet whole and cut in two at 1, after its header, and
+        # before its last octet.
+        base = list(_gen_mutants(bed_name[:6], quick, bed))
+        for descr, chan, data in base:
+            frames = data if isinstance(data, (tuple, list)) else (data,)
+            if chan != 'hci' or not all(W.hci_well_framed(f) for f in frames):
+                continue
+            out.append((descr, chan, data))
+            if len(frames) == 1 and '|op@' not in descr:  # the 254-value event-code sweeps are fed whole only
+                f = frames[0]
+                info = W.HCI_FRAMING.get(f[0])
+                cuts = sorted({c for c in (1, (1 + sum(info)) if info else 0, len(f) - 1) if 0 < c < len(f)})
+                for c in cuts:
+                    out.append((f'{descr}|cut@{c}', chan, (f[:c], f[c:])))
     elif bed_name in ('hci_le', 'hci_cl'):
         seeds(B.hci_seeds(bed.v_handle, str(bed.att_dev.public_address if bed.classic else bed.a_conn.self_address)), kk=1)
         out.extend(B.acl_fragment_sequences(bed.v_handle, 2 if quick else 3))
@@ -146,6 +168,14 @@ def site_of(bed, kind: str, out, pout, mut) -> str:
         return out.rec or (pout.rec if pout else None) or '?'
     if kind == 'step_budget':
         return 'loop'
+    if getattr(bed, 'diag_first', False):
+        # beds whose known-bad state is the root cause whatever exception led to it (stream parser left mid-packet)
+        try:
+            d0 = bed.diagnose(out, pout) or getattr(out, 'pre_diag', None)
+        except Exception:
+            d0 = None
+        if d0:
+            return d0
     # an exception that escaped to the event loop while the reference request / the frame was processed
     for src in ((pout.excs if pout else []), out.excs):
         for t, s in src:
@@ -464,7 +494,7 @@ def _hex_short(data) -> str:
 # ---------------------------------------------------------------------------
 # entry points
 # ---------------------------------------------------------------------------
-BED_ORDER = ['hfp_hf', 'hfp_ag', 'rfcomm', 'avctp', 'avdtp', 'sdp', 'cl_sig', 'hci_cl', 'hci_le', 'le_sig', 'le_coc', 'smp', 'att_server', 'att_client',
+BED_ORDER = ['hfp_hf', 'hfp_ag', 'rfcomm', 'avctp', 'avdtp', 'sdp', 'sdp_client', 'cl_sig', 'hci_cl', 'hci_le', 'hci_cl_stream', 'hci_le_stream', 'le_sig', 'le_coc', 'smp', 'att_server', 'att_client',
              'att_client_pending']
 
 
